@@ -17,5 +17,7 @@ INVARIANT InvFrame
 INVARIANT InvCompact
 INVARIANT InvUnique
 INVARIANT InvNoLeak
+INVARIANT InvTableInv
+INVARIANT InvTableAgree
 INVARIANT InvFamily
 CHECK_DEADLOCK FALSE
